@@ -64,8 +64,8 @@ Section TabProofs.
     - exists st2, m2. cbn [fst snd]. split; [reflexivity|]. split; [exact HR2|]. split; lia.
     - destruct (read_until_spec rd Rep Hsim cap Hcap LF fuel st2 src2 m2 HR2 ltac:(lia))
         as [st3 [m3 [E3 [HR3 Hm3]]]].
-      rewrite E3. exists st3, m3. cbn [fst snd]. unfold w_tab_tail.
-      split; [destruct (take_line LF src2); reflexivity|]. split; [exact HR3|]. split; [lia|].
+      rewrite E3. exists st3, m3. cbn [fst snd].
+      split; [reflexivity|]. split; [exact HR3|]. split; [lia|].
       rewrite skipn_length. lia.
   Qed.
 
